@@ -126,6 +126,13 @@ def cases(tier, seed):
             ops.append("vi.decbuf %s %s %d %s" % (ty, s, min(off, n), rnd.choice(["zero", "full"])))
             ops.append("vi.decsrc %s %s" % (ty, s))
             if n and rnd.random() < 0.5:
+                # the same octets scattered over a chunk list, some chunks empty
+                cuts = sorted(rnd.randint(0, n) for _ in range(rnd.choice([1, 2, 3, 4])))
+                if rnd.random() < 0.5:
+                    k = rnd.choice(cuts)
+                    cuts = sorted(cuts + [k] * rnd.choice([1, 2]))
+                ops.append("vi.decchunks %s %s %s" % (ty, s, ",".join(map(str, cuts))))
+            if n and rnd.random() < 0.5:
                 # a source that is busy / interrupted / failing once, in front of one of the octets
                 ops.append("vi.decsrcb %s %s %d %s" % (ty, s, rnd.randint(0, n), rnd.choice(["eagain", "eagain", "eintr", "eio"])))
         cs.append(Case("dec-%d" % i, ops, ("decode",)))
